@@ -289,7 +289,7 @@ def rule_sort2(prog, sigs):
                             PROP, 'R-SORT-2', I.where(v.node, s.wrap.module),
                             s.wrap.short(), 'raise:' + (c.name if c else '?'),
                             'rejection of an ill-sorted operand raises %s '
-                            'instead of TypeError' % (c.name if c else v.exc)))
+                            'instead of TypeError' % (c.name if c else v.exc)), witness=v)
                     else:
                         r.ok()
                     continue
@@ -517,7 +517,7 @@ def rule_sort4(prog):
                         f.short(), 'raise:' + (c.name if c else repr(v.exc)),
                         '%s.modelcheck rejects with %s, not TypeError' % (
                             lang, c.name if c else v.exc),
-                        expected='TypeError'))
+                        expected='TypeError'), witness=v)
                 else:
                     r.ok()
                 continue
@@ -578,7 +578,7 @@ def rule_sort4(prog):
                     r.fail(Finding(
                         PROP, 'R-SORT-4', f.where(), f.short(), 'delegate',
                         'CTLS.modelcheck returns %r, not the result of a '
-                        'guarded CTL/LTL modelcheck' % (v,)))
+                        'guarded CTL/LTL modelcheck' % (v,)), witness=v)
         if ncore == 0:
             raise AnalysisError('R-SORT-4: no returning path in %s' % f.qn)
     floor('R-SORT-4', 'returning paths', len(r.instances), 6)
